@@ -39,6 +39,14 @@ var Mp = map[string]int{"a": 1, "b": 2}
 var IV I = T{A: 31}
 var Ch = make(chan int, 4)
 var Fn = func() int { Calls++; return 41 }
+
+type FT func() int
+
+var Next FT = func() int { Calls++; return 43 }
+
+type FTs []FT
+
+var Nexts = FTs{Next}
 var Calls int
 var unexp = 51
 
@@ -64,6 +72,7 @@ type c13gen struct {
 	home    int    // 0 app, 1 lib
 	imports map[int]bool
 	usedPar bool
+	parName string // name of the injector parameter the expression mentions ("par", or "X": shadows the package-level X)
 	dot     bool // the expression is written in the injector's package, which dot-imports the library
 }
 
@@ -76,11 +85,17 @@ func (g *c13gen) specialInt() string {
 	g.special = ""
 	switch k {
 	case "unsafe":
-		return g.pick([]string{"F()", "Fn()", "V.Meth()", "<-Ch", "PV.Meth()", "(F)()", "func() int { return 1 }()", "T.Meth(V)"}, "unsafe")
+		return g.pick([]string{"F()", "Fn()", "V.Meth()", "<-Ch", "PV.Meth()", "(F)()", "func() int { return 1 }()", "T.Meth(V)", "Next()", "(Next)()", "Nexts[0]()", "FT(F)()", "FT(Next)()"}, "unsafe")
 	case "inaccessible":
 		if g.home == 0 || g.dot {
 			g.usedPar = true
-			return "par"
+			if g.parName == "" {
+				g.parName = g.pick([]string{"par", "X", "X"}, "parname")
+				if g.dot {
+					g.parName = "par"
+				}
+			}
+			return g.parName
 		}
 		return g.pick([]string{"unexp", "V.hidden", "PV.hidden", "T{hidden: 3}.hidden", "Ts[0].hidden"}, "inacc")
 	case "either":
@@ -100,7 +115,9 @@ func (g *c13gen) expr(ty string, depth int) string {
 		if leaf {
 			return g.pick([]string{"42", "X", "C", "V.A", "PV.A", "Arr[1]", "Sl[2]", `Mp["a"]`, "*PI", "Ts[1].A", "IV.(T).A", "conf.Port", "wconf.Port", "0x1F", "(*PV).A"}, "intleaf")
 		}
-		switch g.pick([]string{"leaf", "add", "mul", "neg", "conv", "paren", "index", "sel", "shift", "assertsel", "bitops", "litsel", "tsliceidx", "tmapidx", "cmplx"}, "int") {
+		switch g.pick([]string{"leaf", "add", "mul", "neg", "conv", "paren", "index", "sel", "shift", "assertsel", "bitops", "litsel", "tsliceidx", "tmapidx", "cmplx", "optsel"}, "int") {
+		case "optsel":
+			return g.expr("opt", depth+1) + ".X"
 		case "bitops":
 			return "((" + g.expr("int", depth+1) + " &^ 1) | 2)"
 		case "litsel":
@@ -236,6 +253,16 @@ func (g *c13gen) expr(ty string, depth int) string {
 		return "[2][]int{{" + g.expr("int", depth+1) + "}, Sl}"
 	case "J":
 		return "JV"
+	case "opt":
+		switch g.pick([]string{"both", "x", "default", "swapped"}, "opt") {
+		case "x":
+			return "Opt{X: " + g.expr("int", depth+1) + "}"
+		case "default":
+			return "Opt{Default: Default, X: " + g.expr("int", depth+1) + "}"
+		case "swapped":
+			return "Opt{Default: Default + \"!\", X: X + " + g.expr("int", depth+1) + "}"
+		}
+		return "Opt{X: X, Default: " + g.expr("string", depth+1) + "}"
 	case "empty":
 		return "EV"
 	}
@@ -289,13 +316,15 @@ func c13Type(s *Spec, ty string, home int) *Type {
 		return Array(2, Slice(Basic("int")))
 	case "J":
 		return Named(find("J"))
+	case "opt":
+		return Named(find("Opt"))
 	case "empty":
 		return &Type{K: "ifacelit"}
 	}
 	return Basic("int")
 }
 
-var c13TypeNames = []string{"int", "int", "int", "string", "bool", "T", "T", "*T", "slice", "map", "array", "N", "func", "chan", "pair", "tslice", "tmap", "pslice", "pptr", "arrslice"}
+var c13TypeNames = []string{"opt", "opt", "int", "int", "int", "string", "bool", "T", "T", "*T", "slice", "map", "array", "N", "func", "chan", "pair", "tslice", "tmap", "pslice", "pptr", "arrslice"}
 
 func genC13() *rapid.Generator[*Spec] {
 	return rapid.Custom(func(t *rapid.T) *Spec {
@@ -312,6 +341,8 @@ func genC13() *rapid.Generator[*Spec] {
 				Decl{Pkg: home, Name: "I", Form: "iface", IMeth: []string{"M"}},
 				Decl{Pkg: home, Name: "Pair", Form: "struct", Fields: []SField{{Name: "East", T: Basic("string")}, {Name: "West", T: Basic("string")}}},
 				Decl{Pkg: home, Name: "J", Form: "iface", IMeth: []string{"Other"}},
+				// field names that coincide with package-level names of the same package
+				Decl{Pkg: home, Name: "Opt", Form: "struct", Fields: []SField{{Name: "X", T: Basic("int")}, {Name: "Default", T: Basic("string")}}},
 			)
 		}
 		s.PkgExtra[0], s.PkgExtra[1] = c13EnvApp, c13EnvLib
@@ -398,7 +429,7 @@ func genC13() *rapid.Generator[*Spec] {
 			ii := addItem(s, it)
 			in := Injector{Name: fmt.Sprintf("Inject%d", k), Out: it.Out, Panic: rapid.Bool().Draw(t, "panicform")}
 			if g.usedPar {
-				in.Params = []Param{{Name: "par", T: Basic("int")}}
+				in.Params = []Param{{Name: g.parName, T: Basic("int")}}
 			}
 			place := rapid.SampledFrom([]string{"set", "set", "direct"}).Draw(t, "place")
 			if g.home == 1 && !dot {
